@@ -73,9 +73,10 @@ func newSchemaValidator(schema *spec.Schema, rootSchema interface{}, root string
 		return nil
 	}
 
-	if rootSchema == nil {
-		// a copy: expanding a root-level $ref overwrites *schema in place, and with it the definitions
-		// that the references of the expanded schema point into
+	if rootSchema == nil || rootSchema == interface{}(schema) {
+		// a copy (also when the caller names the schema as its own root): expanding a root-level $ref
+		// overwrites *schema in place, and with it the definitions that the references of the expanded
+		// schema point into
 		root := *schema
 		rootSchema = &root
 	}
